@@ -262,7 +262,7 @@ func c16r9(c *Ctx, r *Report) {
 func c18r7(c *Ctx, r *Report) {
 	l := c.L
 	r.rule("C18-R7", "B (census)", "P1",
-		"History.modified is consulted by presence (comma-ok lookup), never by the emptiness of the stored text; History.lines is cut to the size limit only in append (the limit can still change after the file was loaded); Terminal.history is assigned once, from Options.History",
+		"History.modified is consulted by presence (comma-ok lookup), never by the emptiness of the stored text; History.lines is cut to the size limit in append, and elsewhere (at load time) only if no function changes the limit of an existing History in place; Terminal.history is assigned once, from Options.History",
 		"an entry edited to the empty string shows its stored text again; a larger --history-size given after --history loses the older part of the file; history silently disabled for the session")
 	fMod := l.Field("fzf", "History", "modified")
 	fLines := l.Field("fzf", "History", "lines")
@@ -292,6 +292,28 @@ func c18r7(c *Ctx, r *Report) {
 		})
 	}
 	r.floor("lookups in History.modified", nLk, 1)
+	// in-place changes of the limit of an existing History
+	var inPlace []*ssa.Store
+	inPlaceWhere := ""
+	for _, fn := range l.AllFuncs() {
+		if fn.Pkg != l.pkg("fzf") {
+			continue
+		}
+		eachInstr(fn, func(in ssa.Instruction) {
+			st, ok := in.(*ssa.Store)
+			if !ok {
+				return
+			}
+			if f, _ := fieldOf(st.Addr); f != fMax {
+				return
+			}
+			if al, isAlloc := addrRoot(st.Addr).(*ssa.Alloc); isAlloc && al.Parent() == fn {
+				return // the constructor's literal
+			}
+			inPlace = append(inPlace, st)
+			inPlaceWhere = relName(fn)
+		})
+	}
 	// cuts of lines by maxSize
 	nCut := 0
 	for _, fn := range l.AllFuncs() {
@@ -321,7 +343,9 @@ func c18r7(c *Ctx, r *Report) {
 				return
 			}
 			nCut++
-			r.check(fn == app, relName(fn)+":cut by the size limit", sl.Pos(), fn, "entries are dropped by the size limit only when the file is rewritten (append)", "the list is cut to the limit known at this point; a later --history-size cannot bring the entries back")
+			// a cut at load time is sound only if the limit of an existing History is never changed in place: a
+			// change of the limit then has to create the history again from the file (C18-R6 checks that it does)
+			r.check(fn == app || len(inPlace) == 0, relName(fn)+":cut by the size limit", sl.Pos(), fn, "entries are dropped by the size limit when the file is rewritten (append), or at load time by a History whose limit is never changed afterwards", "the list is cut to the limit known at this point while "+inPlaceWhere+" changes History.maxSize later: a larger --history-size given after --history cannot bring the entries back")
 		})
 	}
 	r.floor("cuts by History.maxSize", nCut, 1)
